@@ -59,12 +59,19 @@ pub fn ts(rng: &mut Rng) -> Timestamp {
 }
 
 pub fn alias(rng: &mut Rng) -> Alias {
-    let s: String = match rng.below(7) {
+    let s: String = match rng.below(8) {
         0 => "a".into(),
         1 => "@".repeat(32),
         2 => "alice".into(),
         3 => "ünïcødé-€".into(),
         4 => "\u{10348}\u{ffff}\u{7ff}x".into(),
+        5 => match rng.below(5) {
+            0 => "ALICE".into(),
+            1 => "Alice.Radicle".into(),
+            2 => "\u{feff}alice\u{200b}".into(),     // BOM / zero-width space: not White_Space, kept as is
+            3 => "e\u{301}".into(),                  // not NFC
+            _ => "\u{e9}".into(),                    // NFC of the former
+        },
         _ => {
             let n = rng.range(1, 32);
             (0..n).map(|_| (0x21 + rng.below(0x5e) as u8) as char).collect()
@@ -74,13 +81,19 @@ pub fn alias(rng: &mut Rng) -> Alias {
 }
 
 pub fn agent(rng: &mut Rng) -> UserAgent {
-    let s: String = match rng.below(8) {
+    let s: String = match rng.below(9) {
         0 => "/radicle/".into(),
         1 => "/radicle:1.0.0/heartwood:0.9/".into(),
         2 => format!("/{}/", "a".repeat(62)),
         3 => "/rad/icle/".into(),
         4 => "/é//x:y:z/".into(),
         5 => "/r/".into(),
+        6 => match rng.below(4) {
+            0 => "/ Radicle /".into(),              // spaces and case a decoder might trim / fold
+            1 => "/RADICLE:1.0.0/".into(),
+            2 => "/radicle:1.0.0 /".into(),
+            _ => "/radicle/ /".into(),
+        },
         _ => {
             let n = rng.range(1, 20);
             let name: String = (0..n).map(|_| (b'a' + rng.below(26) as u8) as char).collect();
@@ -97,20 +110,111 @@ pub fn onion(rng: &mut Rng) -> tor::OnionAddrV3 {
     tor::OnionAddrV3::from(cyphernet::ed25519::PublicKey::from_pk_compressed(**pk).expect("valid point"))
 }
 
+/// Structured IPv6 addresses: every range a decoder might be tempted to "normalise" (IPv4-mapped,
+/// IPv4-compatible, NAT64, 6to4, unspecified, loopback, link-local, unique-local, multicast, documentation).
+pub fn ipv6(rng: &mut Rng) -> net::Ipv6Addr {
+    let v4 = ipv4(rng).octets();
+    let mut o = arr::<16>(rng);
+    match rng.below(16) {
+        0 => {
+            // IPv4-mapped ::ffff:a.b.c.d
+            o = [0; 16];
+            o[10] = 0xff;
+            o[11] = 0xff;
+            o[12..].copy_from_slice(&v4);
+        }
+        1 => {
+            // IPv4-compatible ::a.b.c.d
+            o = [0; 16];
+            o[12..].copy_from_slice(&v4);
+        }
+        2 => o = [0; 16],                                             // ::
+        3 => { o = [0; 16]; o[15] = 1; }                              // ::1
+        4 => {
+            // NAT64 64:ff9b::/96
+            o = [0; 16];
+            o[1] = 0x64; o[2] = 0xff; o[3] = 0x9b;
+            o[12..].copy_from_slice(&v4);
+        }
+        5 => { o[0] = 0x20; o[1] = 0x02; o[2..6].copy_from_slice(&v4); } // 6to4 2002::/16
+        6 => { o[0] = 0xfe; o[1] = 0x80; for x in &mut o[2..8] { *x = 0; } } // link-local fe80::/64
+        7 => { o[0] = 0xfc | (rng.below(2) as u8); }                  // unique-local fc00::/7
+        8 => { o[0] = 0xff; o[1] = rng.below(16) as u8; }             // multicast ff00::/8
+        9 => { o[0] = 0x20; o[1] = 0x01; o[2] = 0x0d; o[3] = 0xb8; }  // documentation 2001:db8::/32
+        10 => o = [0xff; 16],
+        11 => {
+            // ::ffff:0:a.b.c.d (IPv4-translated) and near misses of the mapped prefix
+            o = [0; 16];
+            o[8] = 0xff; o[9] = 0xff;
+            o[12..].copy_from_slice(&v4);
+        }
+        12 => {
+            o = [0; 16];
+            o[10] = 0xff; o[11] = 0xfe;
+            o[12..].copy_from_slice(&v4);
+        }
+        _ => {}
+    }
+    net::Ipv6Addr::from(o)
+}
+
+/// IPv4 addresses including the special ranges.
+pub fn ipv4(rng: &mut Rng) -> net::Ipv4Addr {
+    let r = rng.next() as u32;
+    let [_, b, c, d] = r.to_be_bytes();
+    match rng.below(12) {
+        0 => net::Ipv4Addr::new(0, 0, 0, 0),
+        1 => net::Ipv4Addr::new(255, 255, 255, 255),
+        2 => net::Ipv4Addr::new(127, b, c, d),
+        3 => net::Ipv4Addr::new(127, 0, 0, 1),
+        4 => net::Ipv4Addr::new(10, b, c, d),
+        5 => net::Ipv4Addr::new(169, 254, c, d),
+        6 => net::Ipv4Addr::new(192, 168, c, d),
+        7 => net::Ipv4Addr::new(192, 0, 2, d),
+        8 => net::Ipv4Addr::new(224, b, c, d),
+        _ => net::Ipv4Addr::from(r),
+    }
+}
+
+/// DNS names a decoder might want to normalise: upper case, trailing dot, punycode, raw IDN, the 255-byte
+/// limit, empty, names that look like IP or onion addresses.
+pub fn dns(rng: &mut Rng) -> String {
+    match rng.below(14) {
+        0 => String::new(),
+        1 => "x".repeat(255),
+        2 => format!("{}.", "y".repeat(254)),
+        3 => "ü.example".into(),
+        4 => "xn--mnchen-3ya.example".into(),
+        5 => "Seed.Radicle.XYZ".into(),
+        6 => "seed.radicle.xyz.".into(),
+        7 => "SEED.RADICLE.XYZ.".into(),
+        8 => "127.0.0.1".into(),
+        9 => "::ffff:192.0.2.1".into(),
+        10 => "xmrhfasfg5suueegrnc4gsgyi2tyclcy5oz7f5drnrodmdtob6t2ioyd.onion".into(),
+        11 => " seed.radicle.xyz ".into(),
+        12 => "seed.radicle.xyz".into(),
+        _ => format!("h{}.example.com", rng.below(1000)),
+    }
+}
+
+pub fn port(rng: &mut Rng) -> u16 {
+    match rng.below(6) {
+        0 => 0,
+        1 => 65535,
+        2 => 8776,
+        3 => 1,
+        _ => rng.next() as u16,
+    }
+}
+
 pub fn address(rng: &mut Rng) -> Address {
-    let host = match rng.below(6) {
-        0 => HostName::Ip(net::IpAddr::V4(net::Ipv4Addr::from(rng.next() as u32))),
-        1 => HostName::Ip(net::IpAddr::V6(net::Ipv6Addr::from(arr::<16>(rng)))),
-        2 => HostName::Dns("seed.radicle.xyz".into()),
-        3 => HostName::Dns(match rng.below(4) {
-            0 => String::new(),
-            1 => "x".repeat(255),
-            2 => "ü.example".into(),
-            _ => format!("h{}.example.com", rng.below(1000)),
-        }),
+    let host = match rng.below(8) {
+        0 | 1 => HostName::Ip(net::IpAddr::V4(ipv4(rng))),
+        2 | 3 | 4 => HostName::Ip(net::IpAddr::V6(ipv6(rng))),
+        5 | 6 => HostName::Dns(dns(rng)),
         _ => HostName::Tor(onion(rng)),
     };
-    Address::from(NetAddr { host, port: rng.next() as u16 })
+    Address::from(NetAddr { host, port: port(rng) })
 }
 
 pub fn filter(rng: &mut Rng) -> Filter {
